@@ -501,6 +501,7 @@ func c18Realize(r *Run, query []byte) []byte {
 }
 
 func propC18(r *Run) {
+	defer c18CliSearch(r)
 	thorough := r.tier == "thorough"
 	r.exhaustive = true
 	c18Alphabet(r)
